@@ -39,6 +39,22 @@ Theorem C12_no_lock_left : forall (V : Type) (C : cfg V), framed C ->
 Proof. exact (@left_workers_hold_no_lock). Qed.
 Print Assumptions C12_no_lock_left.
 
+(* the exit itself is never blocked: wherever the request arrives, the worker's OWN next events - the request,
+   the release of the lock it holds (if any), leaving execution_loop with any exit status - are enabled one after
+   the other whatever the other workers do or do not do; at the end the worker has left, no result has changed,
+   exactly the lock it held is free and every other lock and every other worker is as before *)
+Theorem C12_stop_leads_to_exit : forall (V : Type) (C : cfg V) (s : st V) w code,
+  (w_pc (ws s w) = PIdle \/ exists t, w_pc (ws s w) = PLocked t \/ w_pc (ws s w) = PCleared t \/ w_pc (ws s w) = PSkip t \/
+                                 w_pc (ws s w) = PRunning t \/ (exists v, w_pc (ws s w) = PRan t v) \/ w_pc (ws s w) = PStored t) ->
+  exists s', run C s (EInterrupt w :: (match holding (w_pc (ws s w)) with Some t => [EUnlock w t] | None => [] end) ++ [EExit w code]) = Some s' /\
+    w_pc (ws s' w) = PDone code /\ results s' = results s /\
+    (forall t, locks s' t = match holding (w_pc (ws s w)) with
+                            | Some t' => if Pos.eqb t t' then LFree else locks s t
+                            | None => locks s t end) /\
+    (forall w', w' <> w -> ws s' w' = ws s w').
+Proof. exact stop_request_leads_to_exit. Qed.
+Print Assumptions C12_stop_leads_to_exit.
+
 (* whatever was stored is still the sequential value (C01 (a) holds with stop requests in the trace),
    and any later workers complete the computation: once nobody holds a lock, new workers F that run
    without being stopped themselves end with every non-failing task stored *)
@@ -65,3 +81,12 @@ Example C12_nonvacuous :
              forallb (okev (prog_cfg ex_prog)) (ex_trace_finish 2) = true /\
              map (results s) [1; 2; 3]%positive = [Some ex_v1; Some ex_v2; Some ex_v3] /\ w_pc (ws s 2) = PDone 0).
 Proof. split; eexists; vm_compute; repeat split; reflexivity. Qed.
+
+(* non-vacuity of C12_stop_leads_to_exit: after the first five events of ex_trace_stop worker 0 is inside f1
+   holding the lock of t1, and the three events of the theorem are the ones ex_trace_stop continues with *)
+Example C12_nonvacuous_exit :
+  exists s, run (prog_cfg ex_prog) (init (st_of [])) (firstn 5 ex_trace_stop) = Some s /\
+    w_pc (ws s 0) = PRunning 1%positive /\ locks s 1%positive = LHeld 0 /\
+    firstn 3 (skipn 5 ex_trace_stop) =
+      EInterrupt 0 :: (match holding (w_pc (ws s 0)) with Some t => [EUnlock 0 t] | None => [] end) ++ [EExit 0 143].
+Proof. eexists. vm_compute. repeat split; reflexivity. Qed.
